@@ -5,7 +5,7 @@ From OIDC Require Import Lib C10_spec C10_proofs.
 
 (* The full statement "for every router, flow and fault plan, a reached failure is answered with an
    error and no credential" is FALSE for the library as it is: two open findings (F24 discovery,
-   Fxx-C10-1 revocation of a JWT access token), listed in C10_Handlers.excused. *)
+   Fxx-C10-1 revocation of a JWT access token), listed in C10_Handlers.open_pair. *)
 Theorem C10_fail_closed_refuted :
   exists i, wf_input i = true /\ spec i (model i) = false.
 Proof. exact fail_closed_refuted_discovery. Qed.
@@ -21,9 +21,13 @@ Theorem C10_fail_closed_full_statement_fails :
 Proof. exact fail_closed_not_unconditional. Qed.
 Print Assumptions C10_fail_closed_full_statement_fails.
 
-(* Everything else: for every router, every flow variant, every plan (k-th call for any k, or every
-   call of any method; kind error or deadline) in which no reached failure is one of the two open
-   (flow, method) pairs, the property predicate holds of the model's answer. *)
+(* Everything else: for every router, every flow variant, cold or warm provider, every plan (k-th
+   call for any k, or every call of any method) and every VALUE of the failure (plain error,
+   deadline, cancellation, *oidc.Error of any code with or without the redirect-disabled mark,
+   ErrDuplicateUserCode, ErrInvalidRefreshToken; bare or wrapped) in which no reached failure is one
+   of the two open (flow, method) pairs, the property predicate holds of the model's answer.
+   (spec itself exempts the one value the storage interface defines as an answer:
+   ErrInvalidRefreshToken from GetRefreshTokenInfo, C10_spec.documented_answer.) *)
 Theorem C10_fail_closed_partial :
   forall i, wf_input i = true -> open_finding i = false -> spec i (model i) = true.
 Proof. exact fail_closed_partial. Qed.
@@ -35,7 +39,7 @@ Print Assumptions C10_fail_closed_partial.
 Theorem C10_fail_closed :
   forall r f p, wf_flow f = true ->
   hit p (handler r f) = true ->
-  (forall m kd, In (m, kd) (faults p (handler r f)) -> excused f m = false) ->
+  (forall m kd, In (m, kd) (faults p (handler r f)) -> excused f m kd = false) ->
   let a := answer p (handler r f) in
   (r_cls a = K302Err \/ r_cls a = K4xx \/ r_cls a = K5xx
    \/ (r_cls a = KInactive /\ is_introspection f = true))
@@ -52,22 +56,34 @@ Print Assumptions C10_fail_closed_nonvacuous.
    only end in answers satisfying P, then every run that reaches an injected failure (none of them
    excused) ends in an answer satisfying P.  By induction over the program. *)
 Theorem C10_fail_closed_any_program :
-  forall (P : resp -> bool) (ex : method -> bool) (g : prog),
+  forall (P : resp -> bool) (ex : method -> kind -> bool) (g : prog),
   fail_closed_prog P ex g = true ->
   forall p, hit p g = true ->
-  (forall m kd, In (m, kd) (faults p g) -> ex m = false) ->
+  (forall m kd, In (m, kd) (faults p g) -> ex m kd = false) ->
   P (answer p g) = true.
 Proof. exact fail_closed_run. Qed.
 Print Assumptions C10_fail_closed_any_program.
 
+(* A failure that persists for every call of a method the flow uses (so no retry can get past it):
+   error answer without credentials, whatever the value - this is the ErrDuplicateUserCode-on-every-
+   attempt case of the device authorization endpoint, for all flows and methods. *)
+Theorem C10_persistent_failure :
+  forall r f m kd, wf_flow f = true ->
+  In m (journal PNone (handler r f)) ->
+  open_pair f m = false -> documented_answer m kd = false ->
+  closed_answer f (answer (PMethod m kd) (handler r f)) = true.
+Proof. exact persistent_failure. Qed.
+Print Assumptions C10_persistent_failure.
+
 (* Device token poll: a failing GetDeviceAuthorizatonState is answered slow_down when the failure
-   is a deadline and access_denied otherwise (4xx, no credential), on both routers, every variant. *)
+   is (or wraps) context.DeadlineExceeded and access_denied otherwise (4xx, no credential), on both
+   routers, every variant. *)
 Theorem C10_device_mapping :
   forall r c off oid p kd rest,
   faults p (handler r (FDeviceToken c off oid)) = (MGetDeviceAuthorizatonState, kd) :: rest ->
   let a := answer p (handler r (FDeviceToken c off oid)) in
   r_cls a = K4xx /\ r_creds a = [] /\
-  r_err a = match kd with KDeadline => "slow_down" | KError => "access_denied" end.
+  r_err a = if is_deadline kd then "slow_down" else "access_denied".
 Proof. exact device_mapping. Qed.
 Print Assumptions C10_device_mapping.
 
@@ -86,11 +102,11 @@ Theorem C10_journal_prefix :
 Proof. exact journal_prefix. Qed.
 Print Assumptions C10_journal_prefix.
 
-(* For every handler but the revocation of a JWT access token (which goes on after a KeySet
-   failure): with the k-th call failing the journal is exactly the first k calls of the fault-free
+(* For every handler but the revocations that go on after a failure (KeySet; GetRefreshTokenInfo
+   answering ErrInvalidRefreshToken): with the k-th call failing the journal is exactly the first k calls of the fault-free
    run, and the failure is reached iff k is at most the number of fault-free calls. *)
 Theorem C10_journal_at_k :
-  forall r f k kd, revokes_jwt f = false ->
+  forall r f k kd, goes_on f = false ->
   journal (PAt (S k) kd) (handler r f) = firstn (S k) (journal PNone (handler r f))
   /\ hit (PAt (S k) kd) (handler r f) = (S k <=? List.length (journal PNone (handler r f))).
 Proof. exact journal_at_handlers. Qed.
